@@ -105,16 +105,45 @@ TrDecompose == IsOp("decompose") /\ M!MDecompose /\
          LET x == out'[2]  r == E.res IN
            /\ Len(r) = 8 /\ r[1] = x[1]
            /\ \A k \in 2..8 : Mg(r[k]) = x[k]
-TrCompose == IsOp("compose") /\ out' = <<"dur", d'>> /\
+TrCompose == IsOp("compose") /\
          d' = M!Compose(E.sign, Mg(E.f[1]), Mg(E.f[2]), Mg(E.f[3]), Mg(E.f[4]), Mg(E.f[5]), Mg(E.f[6]), Mg(E.f[7]))
-           /\ DurIs(E.res, d')
+           /\ out' = <<"dur", d'>> /\ DurIs(E.res, d')
 (* std::time::Duration conversions: secs + subsec nanos *)
 TrFromStd == IsOp("from_std") /\ M!MFromTotal(B!Add(B!Mul(Mg(E.secs), Ur[4]), B!FromInt(E.nanos))) /\ DurIs(E.res, d')
 TrIntoStd == IsOp("into_std") /\ UNCHANGED <<d, out>> /\
          LET v == IF B!Lt(d, B!Zero) THEN B!Zero ELSE d IN
            /\ Mg(E.res.secs) = B!DivF(v, Ur[4]) /\ B!FromInt(E.res.nanos) = B!ModF(v, Ur[4])
 
+-----------------------------------------------------------------------------
+(* Known deviations (known_findings.json, status "open").  A deviation action accepts exactly   *)
+(* the recorded wrong behaviour of a listed finding - the input class and the wrong output -    *)
+(* prints KNOWN and resynchronises on the observed result.  Anything else is not explained.     *)
+KF == JsonDeserialize(IOEnv.KNOWN_FILE)
+Open(id) == \E i \in 1..Len(KF.findings) : KF.findings[i].id = id /\ KF.findings[i].status = "open"
+Known(id) == PrintT(<<"KNOWN", id, l>>)
+
+(* F1: total_nanoseconds() and what is built on it, for operands below -1 century with a        *)
+(* non-zero nanosecond field                                                                    *)
+Dev_F1 ==
+  /\ Open("F1")
+  /\ \/ /\ IsOp("total") /\ M!F1Class(d) /\ BigIs(E.res, M!F1Total(d)) /\ UNCHANGED d
+          /\ out' = <<"int", M!F1Total(d)>>
+      \/ /\ IsOpIn({"mul_i64", "i64_mul"})
+          /\ (M!F1Class(d) \/ M!F1Class(M!Clamp(Big(E.q))))
+          /\ d' = M!F1MulI(d, Big(E.q)) /\ d' # M!DMulI(d, Big(E.q)) /\ DurIs(E.res, d') /\ out' = <<"dur", d'>>
+      \/ /\ IsOp("div_i64")
+          /\ (M!F1Class(d) \/ M!F1Class(M!Clamp(Big(E.q))))
+          /\ d' = M!F1DivI(d, Big(E.q)) /\ d' # M!DDivI(d, Big(E.q)) /\ DurIs(E.res, d') /\ out' = <<"dur", d'>>
+      \/ /\ IsOp("floor") /\ (M!F1Class(d) \/ M!F1Class(DV(E.s)))
+          /\ d' = M!F1Floor(d, DV(E.s)) /\ d' # M!Floor(d, DV(E.s)) /\ DurIs(E.res, d') /\ out' = <<"dur", d'>>
+      \/ /\ IsOp("ceil") /\ (M!F1Class(d) \/ M!F1Class(DV(E.s)) \/ M!F1Class(M!F1Floor(d, DV(E.s))))
+          /\ d' = M!F1Ceil(d, DV(E.s)) /\ d' \notin M!CeilSet(d, DV(E.s)) /\ DurIs(E.res, d') /\ out' = <<"dur", d'>>
+      \/ /\ IsOp("round") /\ (M!F1Class(d) \/ M!F1Class(DV(E.s)) \/ M!F1Class(M!F1Floor(d, DV(E.s))))
+          /\ d' = M!F1Round(d, DV(E.s)) /\ d' \notin M!RoundSet(d, DV(E.s)) /\ DurIs(E.res, d') /\ out' = <<"dur", d'>>
+  /\ Known("F1")
+
 DurationNext ==
+  \/ Dev_F1
   \/ TrLoad \/ TrFromTotal \/ TrFromUnit \/ TrAdd \/ TrSub \/ TrAddUnit \/ TrSubUnit
   \/ TrNeg \/ TrAbs \/ TrMulI \/ TrDivI \/ TrFloor \/ TrCeil \/ TrRound
   \/ TrParts \/ TrTotal \/ TrSignum \/ TrFromTrunc \/ TrTryTrunc \/ TrTrunc
